@@ -3,13 +3,54 @@
   EVERY input text: the model never answers `panic`, and it terminates (every definition of
   `Rws.Json` is structurally recursive on the input text or on a list of items — accepted by Lean
   without `partial`/fuel; the scanners consume one character per step).
-  Tree after the fixes F25 (readers propagate the splitter's error) and F24c (the splitter answers
-  Err on a non-ASCII byte).  Stack depth: neither scanner recurses (loops with counters), the
-  correspondence run feeds nesting depth 10 000 to the real code.
+  Tree after the fixes F25 (readers propagate the splitter's error), F24c/F24d (the scanners read whole
+  UTF-8 characters through `json::read_utf8_char`; bytes that are not a character are `Err`) and F24f (string
+  flag of the nesting counters).  The byte level of the single-character read is total by its type
+  (`readUtf8Char : List UInt8 → Option …`: a character and the rest, or the error — no panic outcome exists) on
+  EVERY byte list, well-formed or not; `C20_json_read_char_progress` shows that a successful read always consumes
+  at least one byte and at most four, so the read loops can not stall.  Stack depth: neither scanner recurses
+  (loops with counters), the correspondence run feeds nesting depth 10 000 to the real code.
 -/
 import Rws.Json
+import RwsProofs.Lemmas.JsonUtf8
 namespace Rws.C20Json
 open Rws Rws.Json
+
+/-- one read of `json::read_utf8_char` + `String::from_utf8` on ANY bytes: when it succeeds it has consumed between one
+    and four bytes (so every read loop of the scanners terminates); otherwise it is the error -/
+theorem C20_json_read_char_progress (bs : List UInt8) (c : Char) (rest : List UInt8) (h : readUtf8Char bs = some (c, rest)) :
+    rest.length < bs.length ∧ bs.length ≤ rest.length + 4 := by
+  refine ⟨readUtf8Char_progress bs c rest h, ?_⟩
+  unfold readUtf8Char at h
+  cases hb : readUtf8CharBytes bs with
+  | none => simp [hb] at h
+  | some p =>
+    obtain ⟨cb, r⟩ := p
+    simp only [hb] at h
+    have hr : rest = r := by
+      cases hd : ByteArray.utf8DecodeChar? cb.toByteArray 0 with
+      | none => simp [hd] at h
+      | some c' =>
+        simp only [hd] at h
+        split at h
+        · simp only [Option.some.injEq, Prod.mk.injEq] at h; exact h.2.symm
+        · simp at h
+    subst hr
+    cases bs with
+    | nil => simp [readUtf8CharBytes] at hb
+    | cons b t =>
+      simp only [readUtf8CharBytes] at hb
+      split at hb
+      · simp at hb
+      · simp only [Option.some.injEq, Prod.mk.injEq] at hb
+        rw [← hb.2]
+        have : announcedLen b ≤ 4 := by unfold announcedLen; repeat' split
+                                        all_goals omega
+        simp only [List.length_drop, List.length_cons]
+        omega
+
+example : readUtf8Char [0xF0, 0x9F] = none ∧ readUtf8Char [] = none ∧ readUtf8Char [0xFF, 0x41] = none ∧
+    readUtf8Char [0xE2, 0x28, 0xA1, 0x41] = none := by decide +kernel
 
 theorem splitRun_no_panic (text : Text) : ∀ (st : SSt) (acc : List Text) (s : String), splitRun st acc text ≠ .panic s := by
   induction text with
